@@ -348,3 +348,16 @@ Proof.
   apply in_map_iff in H. destruct H as [[r t] [E H]]. cbn [fst] in E. subst r.
   exists t. exact H.
 Qed.
+
+(* C16: image_or_unknown read from the receiver's side - whatever the device and the transport do,
+   a NON-EMPTY state reported after a transition is the image of the state the device is really in;
+   only "unknown" (the empty state) can stand for anything else *)
+Lemma reported_state_is_real : forall mode strict evt dst src nargs sc,
+  In mode modes -> In (evt, dst) task_events -> In src o2_states ->
+  let ob := run_root (mk_root mode strict evt dst src nargs) sc in
+  o_final ob <> [] -> o_final ob = image mode (o_dev ob).
+Proof.
+  intros mode strict evt dst src nargs sc Hm He Hs ob Hne.
+  destruct (image_or_unknown mode strict evt dst src nargs sc Hm He Hs) as [H | [H _]];
+    [exact H | exact (False_ind _ (Hne H))].
+Qed.
